@@ -291,6 +291,14 @@ type inlineState struct {
 
 func (state *inlineState) spanEnd() int {
 	if state.unparsedPos >= len(state.unparsed) {
+		// Past the last span: there is nothing left to tokenize.
+		// Don't run past the end of the block's own text
+		// (the root block's source may continue with other blocks).
+		for i := len(state.unparsed) - 1; i >= 0; i-- {
+			if span := state.unparsed[i].Span(); span.IsValid() {
+				return span.End
+			}
+		}
 		return len(state.source)
 	}
 	return state.unparsed[state.unparsedPos].Span().End
